@@ -294,7 +294,7 @@ def spell_source(source, workdir):
 def write_config(path, params):
     cfg = GeneratorConfig.create() if params.get("create") else GeneratorConfig()
     apply_params(cfg, params)
-    with open(path, "w") as fp:
+    with open(path, "w", encoding="utf-8") as fp:
         GeneratorConfig.write(fp, cfg)
     stamp = ENV.get("config_version")
     if stamp is not None:
@@ -306,6 +306,17 @@ def write_config(path, params):
         if n:
             with open(path, "w", encoding="utf-8") as fp:
                 fp.write(text)
+    if ENV.get("init_roundtrip"):
+        from xsdata import cli
+
+        out, err = sys.stdout, sys.stderr
+        sys.stdout = sys.stderr = io.StringIO()
+        try:
+            cli.cli.main(["init-config", path], standalone_mode=False)
+        except BaseException:  # noqa: BLE001 - whatever it leaves behind is what the generation then reads
+            pass
+        finally:
+            sys.stdout, sys.stderr = out, err
     edits = ENV.get("config_text") or []
     if edits:
         # the same project file as another editor or tool would have saved it
